@@ -511,6 +511,14 @@ def _getattr(ex, args, kw):
 
 
 def call_method(ex, recv: V, name: str, args, kw):
+    r = _call_method(ex, recv, name, args, kw)
+    owner = getattr(recv, "owner", None)
+    if owner is not None and name in ("append", "extend", "pop", "add", "discard", "remove", "update", "setdefault", "insert", "clear"):
+        ex.write_field(owner[0], owner[1], recv)
+    return r
+
+
+def _call_method(ex, recv: V, name: str, args, kw):
     if isinstance(recv, VList):
         if name == "append":
             recv.items.append(args[0])
@@ -553,6 +561,18 @@ def call_method(ex, recv: V, name: str, args, kw):
                 recv.arrs = [z3.Lambda([i], z3.Select(a, i + 1)) for a in recv.arrs]
                 recv.length = recv.length - 1
                 return v
+        if name == "insert":
+            # position-dependent shift: content abstracted (sound over-approximation), length + 1
+            nv = ex.fresh("after_insert", Seq(recv.elem))
+            recv.arrs, recv.length = nv.arrs, recv.length + 1
+            return NONE
+        if name == "pop":
+            if ex.branch(recv.length <= 0):
+                raise PyRaise("IndexError")
+            nv = ex.fresh("after_pop", Seq(recv.elem))
+            item = ex.force(unpack(recv.elem, fresh_terms(recv.elem, ex.fresh_name("popped"))))
+            recv.arrs, recv.length = nv.arrs, recv.length - 1
+            return item
         if name == "extend":
             other = args[0]
             cat = ex.seq_concat(recv, other)
